@@ -116,10 +116,17 @@ impl FSETable {
     pub fn build_decoder(&mut self, source: &[u8], max_log: u8) -> Result<usize, FSETableError> {
         self.accuracy_log = 0;
 
-        let bytes_read = self.read_probabilities(source, max_log)?;
-        self.build_decoding_table()?;
-
-        Ok(bytes_read)
+        let result = self.read_probabilities(source, max_log).and_then(|bytes_read| {
+            self.build_decoding_table()?;
+            Ok(bytes_read)
+        });
+        if result.is_err() {
+            // read_probabilities stores the accuracy log before it is validated and the
+            // decoding table is stale or incomplete: a later block that repeats this table
+            // must not find something that looks like a usable table
+            self.accuracy_log = 0;
+        }
+        result
     }
 
     /// Given the provided accuracy log, build a decoding table from that log.
